@@ -459,7 +459,24 @@ impl<'tcx> Cx<'tcx> {
                 ("a", self.operand(a, body, env)),
                 ("opty", self.ty(a.ty(body, tcx))),
             ]),
-            Rvalue::Discriminant(p) => J::Obj(vec![("k", J::s("discr")), ("place", self.place(p, body))]),
+            Rvalue::Discriminant(p) => {
+                let mut v = vec![("k", J::s("discr")), ("place", self.place(p, body))];
+                let pty = p.ty(body, tcx).ty;
+                if let ty::Adt(adt, _) = pty.kind() {
+                    if adt.is_enum() && adt.variants().len() <= 80 {
+                        let mut names = Vec::new();
+                        for (vidx, d) in adt.discriminants(tcx) {
+                            names.push(J::Arr(vec![
+                                J::Str(format!("{}", d.val)),
+                                J::Str(adt.variant(vidx).name.to_string()),
+                            ]));
+                        }
+                        v.push(("adt", J::Str(self.path(adt.did()))));
+                        v.push(("variants", J::Arr(names)));
+                    }
+                }
+                J::Obj(v)
+            }
             Rvalue::Aggregate(kind, ops) => {
                 let ak = match &**kind {
                     AggregateKind::Array(t) => J::Obj(vec![("k", J::s("array")), ("elem", self.ty(*t))]),
@@ -759,6 +776,23 @@ impl<'tcx> Cx<'tcx> {
             blocks.push(J::Obj(vec![("cleanup", J::Bool(data.is_cleanup)), ("stmts", J::Arr(stmts)), ("term", term)]));
         }
         v.push(("blocks", J::Arr(blocks)));
+        // promoted constants of this body, as text (e.g. `&ErrorKind::Interrupted`)
+        if kind != DefKind::Closure || true {
+            let prom = tcx.promoted_mir(did);
+            let mut pv = Vec::new();
+            for pb in prom.iter() {
+                let mut txt = String::new();
+                for data in pb.basic_blocks.iter() {
+                    for st in data.statements.iter() {
+                        if let StatementKind::Assign(..) = st.kind {
+                            let _ = write!(txt, "{:?}; ", st);
+                        }
+                    }
+                }
+                pv.push(J::Str(with_no_trimmed_paths!(txt)));
+            }
+            v.push(("promoted", J::Arr(pv)));
+        }
         // unsafe blocks and lint attrs from HIR (closures are covered by their parent's walk)
         if kind != DefKind::Closure {
             let mut uv = UnsafeFinder { cx: self, found: Vec::new() };
